@@ -11,7 +11,7 @@ CONSTANTS MaxRows
 VARIABLES rows, q, visited, last, done
 pvars == <<rows, q, visited, last, done>>
 Q(d1, d2, k) == [ent |-> "A", sel |-> <<"u", "i">>, filters |-> <<>>, order |-> <<<<"i", d1>>, <<"u", d2>>>>, first |-> k, skip |-> 0,
-                 page |-> [kind |-> "none", vals |-> <<>>], nullable |-> <<>>, subs |-> <<>>]
+                 page |-> [kind |-> "none", vals |-> <<>>], nullable |-> <<>>, subs |-> <<>>, aggs |-> <<>>, having |-> <<>>]
 DataOf(rs) == [A |-> SetToSeq(rs), B |-> <<>>]
 PInit == /\ \E n \in 0..MaxRows : \E kf \in [1..n -> 0..2] : rows = {[id |-> u, u |-> u, i |-> kf[u]] : u \in 1..n}
          /\ \E d1 \in {"asc", "desc"}, d2 \in {"asc", "desc"}, k \in 1..2 : q = Q(d1, d2, k)
